@@ -108,12 +108,16 @@ package storage
 //@ axiom forall o mathint :: {TopoKeyId(o)} keykind(TopoKeyId(o)) == 9 && (0 <= o && o < 18446744073709551616 ==> keynum(TopoKeyId(o)) == o && badger.keypfx(TopoKeyId(o), strkey(graphPrefixTopology)) == 0)
 //@ axiom forall h mathint :: {SnapTopoKeyId(h)} keykind(SnapTopoKeyId(h)) == 10 && keyhid(SnapTopoKeyId(h)) == h && badger.keypfx(SnapTopoKeyId(h), strkey(graphPrefixTopology)) != 0
 //@ axiom forall n, r, ts mathint :: {WorkSnapKeyId(n, r, ts)} keykind(WorkSnapKeyId(n, r, ts)) == 11 && keynode(WorkSnapKeyId(n, r, ts)) == n
+//@ -- C26 (iterator over WORKSNAPSHOT|node|round): every such key carries the first 52 bytes of the round's ts == 0 key as a prefix, and a key
+//@ -- that starts with those 52 bytes (they begin with "WORKSNAPSHOT") is a WORKSNAPSHOT key
+//@ axiom forall n, r, ts mathint :: {WorkSnapKeyId(n, r, ts)} badger.keypfx(WorkSnapKeyId(n, r, ts), kvsub(WorkSnapKeyId(n, r, 0), 0, 52)) == 0
+//@ axiom forall n, r, k mathint :: {badger.keypfx(k, kvsub(WorkSnapKeyId(n, r, 0), 0, 52))} badger.keypfx(k, kvsub(WorkSnapKeyId(n, r, 0), 0, 52)) == 0 ==> keykind(k) == 11
 //@ axiom forall a mathint :: {AssetInfoKeyId(a)} keykind(AssetInfoKeyId(a)) == 12 && keyhid(AssetInfoKeyId(a)) == a
 //@ axiom forall a mathint :: {AssetTotalKeyId(a)} keykind(AssetTotalKeyId(a)) == 13 && keyhid(AssetTotalKeyId(a)) == a
 //@ axiom forall h mathint :: {WithdrawalKeyId(h)} keykind(WithdrawalKeyId(h)) == 16 && keyhid(WithdrawalKeyId(h)) == h
 //@ -- byte order of the fixed-width big-endian keys of ONE prefix == numeric order (binary.BigEndian: the most significant byte comes first)
 //@ axiom forall x, y mathint :: {badger.keylt(TopoKeyId(x), TopoKeyId(y))} 0 <= x && x < 18446744073709551616 && 0 <= y && y < 18446744073709551616 ==> (badger.keylt(TopoKeyId(x), TopoKeyId(y)) <==> x < y)
-//@ -- kinds 14 (NODESTATEQUEUE) and 15 (CUSTODIANUPDATE) have no constructor here yet: they only occur in the assumed frames of the writers called by writeUTXO.
+//@ -- kind 15 (CUSTODIANUPDATE) has no constructor here yet (kind 14 NODESTATEQUEUE: see the C27 section below): they only occur in the assumed frames of the writers called by writeUTXO.
 //@ spec UQK(n crypto.Hash, h crypto.Hash) mathint = UniqKeyId(kvval(n), kvval(h))
 //@ spec SK(n crypto.Hash, r mathint, h crypto.Hash) mathint = SnapKeyId(kvval(n), r, kvval(h))
 //@ spec AIK(a crypto.Hash) mathint = AssetInfoKeyId(kvval(a))
@@ -142,7 +146,7 @@ package storage
 //@   ensures fresh(result) && len(result) > 0 && kvkey(result) == SnapTopoKeyId(kvval(hash))
 //@ assume func graphWorkSnapshotKey
 //@   modifies nothing
-//@   ensures fresh(result) && kvkey(result) == WorkSnapKeyId(kvval(nodeId), round, ts)
+//@   ensures fresh(result) && len(result) == 60 && kvkey(result) == WorkSnapKeyId(kvval(nodeId), round, ts) -- 12 + 32 + 8 + 8 bytes (C26: removeSnapshotWorksForRound slices off the last 8)
 //@ assume func graphAssetInfoKey
 //@   modifies nothing
 //@   ensures fresh(result) && kvkey(result) == AIK(id)
@@ -152,6 +156,36 @@ package storage
 //@ assume func graphWithdrawalClaimKey
 //@   modifies nothing
 //@   ensures fresh(result) && kvkey(result) == WithdrawalKeyId(kvval(tx))
+
+//@ -- ═════════ kind 14 (C27): NODESTATEQUEUE | be64(timestamp) | signer spend key (8 + 32 bytes after the prefix; nearest neighbour "NODEOPERATION"
+//@ -- differs at byte 4). keynum = timestamp, keyhid = id of the 32 signer bytes; byte order: the big-endian timestamp is compared first. ═════════
+//@ uninterp NodeKeyId(ts mathint, s mathint) mathint
+//@ axiom forall ts, s mathint :: {NodeKeyId(ts, s)} keykind(NodeKeyId(ts, s)) == 14 && keyhid(NodeKeyId(ts, s)) == s && badger.keypfx(NodeKeyId(ts, s), strkey(graphPrefixNodeStateQueue)) == 0 &&
+//@     (0 <= ts && ts < 18446744073709551616 ==> keynum(NodeKeyId(ts, s)) == ts)
+//@ axiom forall t1, s1, t2, s2 mathint :: {badger.keylt(NodeKeyId(t1, s1), NodeKeyId(t2, s2))} 0 <= t1 && t1 < 18446744073709551616 && 0 <= t2 && t2 < 18446744073709551616 ==>
+//@     (t1 < t2 ==> badger.keylt(NodeKeyId(t1, s1), NodeKeyId(t2, s2))) && (badger.keylt(NodeKeyId(t1, s1), NodeKeyId(t2, s2)) ==> t1 <= t2)
+//@ spec IsNodeKey(k mathint) bool = k == NodeKeyId(keynum(k), keyhid(k)) && 0 <= keynum(k) && keynum(k) < 18446744073709551616
+//@ assume func nodeStateQueueKey
+//@   modifies nothing
+//@   ensures fresh(result) && len(result) > 0 && kvkey(result) == NodeKeyId(timestamp, kvval(signer))
+
+//@ -- ═════════ kinds 21..23 (C26): WORKCHECKPOINT | node   WORKPROPOSE | node | be32(day)   WORKVOTE | node | be32(day)   (the four WORK… prefixes
+//@ -- share "WORK" and differ at byte 4: 'C', 'P', 'V', 'S') ═════════
+//@ uninterp OffKeyId(n mathint) mathint
+//@ uninterp LeadKeyId(n mathint, day mathint) mathint
+//@ uninterp SignKeyId(n mathint, day mathint) mathint
+//@ axiom forall n mathint :: {OffKeyId(n)} keykind(OffKeyId(n)) == 21 && keyhid(OffKeyId(n)) == n
+//@ axiom forall n, d mathint :: {LeadKeyId(n, d)} keykind(LeadKeyId(n, d)) == 22 && keyhid(LeadKeyId(n, d)) == n && (0 <= d && d < 4294967296 ==> keynum(LeadKeyId(n, d)) == d)
+//@ axiom forall n, d mathint :: {SignKeyId(n, d)} keykind(SignKeyId(n, d)) == 23 && keyhid(SignKeyId(n, d)) == n && (0 <= d && d < 4294967296 ==> keynum(SignKeyId(n, d)) == d)
+//@ assume func graphWorkOffsetKey
+//@   modifies nothing
+//@   ensures fresh(result) && len(result) > 0 && kvkey(result) == OffKeyId(kvval(nodeId))
+//@ assume func graphWorkLeadKey
+//@   modifies nothing
+//@   ensures fresh(result) && len(result) > 0 && kvkey(result) == LeadKeyId(kvval(nodeId), day)
+//@ assume func graphWorkSignKey
+//@   modifies nothing
+//@   ensures fresh(result) && len(result) > 0 && kvkey(result) == SignKeyId(kvval(nodeId), day)
 
 //@ -- ═════════ kinds 17..19 (C20/C28, read by C15's Debug block): ROUND|hash  LINK|Blake3(from|to)  CONSENSUSSNAPSHOT|be64(ts)|hash ═════════
 //@ -- RoundKeyId is invertible (keyhid). LinkKeyId is NOT assumed injective in (from, to): that would be collision freeness of Blake3; no clause needs it.
